@@ -37,6 +37,10 @@ def check_headers(cx, rep):
         primary_vars = None
         for s in sites:
             if s.ast is None:
+                # fail closed: a template that contains an `impl` but does not parse where it lands has an unverified header
+                if any(t_.get('t') == 'i' and t_.get('s') == 'impl' for t_ in s.tmpl.tokens):
+                    n += 1
+                    rep.bad('HDR', where, 'impl@unparsable', 'an impl template does not parse as %s, so its header cannot be verified: `%s`' % (s.cat, s.tmpl.text()[:120]), s.tmpl.file, s.tmpl.line)
                 continue
             for impl, kind in impls_of_site(s):
                 n += 1
